@@ -238,7 +238,19 @@ func SplitCompound(b []byte) (parts [][]byte, trunc int, err error) {
 		parts = append(parts, b[:l])
 		b = b[l:]
 	}
+	if len(b) > 0 {
+		// bytes behind the last declared part: a sender with more than 255 parts
+		// wraps the count byte and the receiver silently loses the rest
+		return parts, 0, &TrailingError{N: len(b)}
+	}
 	return parts, 0, nil
+}
+
+// TrailingError reports undeclared bytes behind the last part of a compound.
+type TrailingError struct{ N int }
+
+func (e *TrailingError) Error() string {
+	return fmt.Sprintf("%d undeclared bytes behind the last compound part", e.N)
 }
 
 // CompressWrap wraps b in a compress message (LZW, LSB, width 8).
